@@ -59,20 +59,8 @@ def run(ctx):
                 "allowed; distinct = (tree, schema, placeholder mode); non-trivial = the tree violates at least one rule")
     ctx.tlc("MC_HedRules", "MC_HedRules.cfg", workers=16, label="model: rule set on all trees <= 4 nodes (RepeatFound, GrammarSound)",
             timeout=1800)
-    gen = "MC_HedRules_gen.cfg"
-    made = None
-    if not quick:
-        with open(os.path.join(tlc.SPECS, gen)) as f:
-            txt = f.read().replace("MaxN = 3", "MaxN = 4")
-        made = os.path.join(tlc.SPECS, "MC_HedRules_gen4.cfg")
-        with open(made, "w") as f:
-            f.write(txt)
-        gen = "MC_HedRules_gen4.cfg"
-    try:
-        r = ctx.tlc("MC_HedRules", gen, workers=1, label="tree enumeration with verdicts", timeout=3000, heap="8g")
-    finally:
-        if made:
-            os.remove(made)
+    gen = "MC_HedRules_gen.cfg" if quick else ctx.cfg("MC_HedRules_gen.cfg", ("MaxN = 3", "MaxN = 4"))
+    r = ctx.tlc("MC_HedRules", gen, workers=1, label="tree enumeration with verdicts", timeout=3000, heap="8g")
     cases = r.json_lines
     ctx.exhaustive = True
     # deep trees (up to 6 nodes) over the structural kinds, sampled by TLC simulation of the growth grammar
